@@ -22,6 +22,7 @@ type Op struct {
 	Val  string `json:"val,omitempty"`
 	Sync bool   `json:"sync,omitempty"`
 	Big  bool   `json:"big,omitempty"` // pad a batch beyond the large-batch threshold
+	Pad  int    `json:"pad,omitempty"` // pad a batch with a value of this many bytes (> 4096) on PadKey
 	N    int    `json:"n,omitempty"`
 	Sub  []Op   `json:"sub,omitempty"`
 }
@@ -46,6 +47,9 @@ func (o Op) String() string {
 	}
 	if o.Big {
 		b.WriteString(" big")
+	}
+	if o.Pad != 0 {
+		fmt.Fprintf(&b, " pad=%d", o.Pad)
 	}
 	if o.N != 0 {
 		fmt.Fprintf(&b, " n=%d", o.N)
@@ -212,7 +216,7 @@ func (m *Model) Apply(op Op, defVal string) {
 		for j, s := range op.Sub {
 			m.Apply(s, fmt.Sprintf("%s.%d", defVal, j))
 		}
-		if op.Big {
+		if op.Big || op.Pad > 0 {
 			m.Pts[PadKey] = "PAD"
 		}
 	case "ingest", "ingestexcise":
